@@ -124,6 +124,7 @@ def run(cmd, timeout, cwd=None, env=None):
 def coq_eval(imports, terms, workdir, tag, timeout=300, shard=250):
     """Evaluate Gallina terms with vm_compute; returns a list of parse trees (or ('error', text))."""
     os.makedirs(workdir, exist_ok=True)
+    shard = max(20, min(shard, -(-len(terms) // NPROC)))     # spread over the cores, at most `shard` cases per file
     shards = [terms[i:i + shard] for i in range(0, len(terms), shard)]
     files = []
     for si, sh in enumerate(shards):
